@@ -615,8 +615,11 @@ class Variant(productmd.composeinfo.VariantBase):
 
     def __delitem__(self, name):
         # remove repomd.xml from checksums (but only if exists)
-        repository = self[name].paths.repository + "/repodata/repomd.xml"
+        repository = self[name].paths.repository
         super(Variant, self).__delitem__(name)
+        if repository is None:
+            return
+        repository += "/repodata/repomd.xml"
         if repository in self._metadata.checksums.checksums.keys():
             del self._metadata.checksums.checksums[repository]
 
